@@ -346,3 +346,61 @@
         for f in failures.iter().take(5) { println!("FAILING INPUT: {}", f); }
         assert!(failures.is_empty());
     }
+
+    /// C14, path-rewrite plugins only merge neighbours: every text of up to 5 pieces over {アイ ウ ア に 1 万 , 京都} is analysed with the
+    /// configured plugins (numeral joining, katakana-OOV joining) and with none; the boundaries with plugins are a subset of those
+    /// without, a token that is not the result of a merge is reported unchanged, and a merged token swallows only katakana or
+    /// numeral material - never a neighbour of another kind
+    #[test]
+    fn verif_oracle_plugins_only_merge() {
+        if !want("C14") { return; }
+        let mut cfgb = ConfigTestSupport::new();
+        let mut dic = DictBuilder::new_system();
+        dic.read_conn(super::super::MATRIX_10_10).unwrap();
+        dic.read_lexicon(SYSTEM_LEX).unwrap();
+        dic.resolve().unwrap();
+        dic.compile(&mut cfgb.make_system()).unwrap();
+        let with = JapaneseDictionary::from_cfg(&cfgb.config()).unwrap();
+        let mut cfg0 = cfgb.config();
+        cfg0.path_rewrite_plugins.clear();
+        let without = JapaneseDictionary::from_cfg(&cfg0).unwrap();
+        let pieces = ["アイ", "ウ", "ア", "に", "1", "万", ",", "京都"];
+        let mut texts: Vec<String> = Vec::new();
+        let mut frontier = vec![String::new()];
+        for _ in 0..5 {
+            let mut nf = Vec::new();
+            for t in &frontier { for c in pieces.iter() { let mut s = t.clone(); s.push_str(c); nf.push(s); } }
+            texts.extend(nf.iter().cloned());
+            frontier = nf;
+        }
+        let mergeable = |s: &str| s.chars().all(|c| ('\u{30a1}'..='\u{30ff}').contains(&c)) || s.chars().all(|c| c.is_ascii_digit() || "万,.".contains(c) || "〇一二三四五六七八九十百千億兆".contains(c));
+        let mut failures = Vec::new();
+        for t in texts.iter() {
+            let run = |jd: &JapaneseDictionary| -> Result<Vec<(usize, usize, u16, u32, String)>, String> {
+                std::panic::catch_unwind(std::panic::AssertUnwindSafe(|| {
+                    let mut tok = StatefulTokenizer::new(jd, Mode::C);
+                    tok.reset().push_str(t);
+                    tok.do_tokenize().map(|_| { let mut ms = MorphemeList::empty(jd); ms.collect_results(&mut tok).unwrap(); ms.iter().map(|m| (m.begin(), m.end(), m.part_of_speech_id(), m.word_id().as_raw(), m.normalized_form().to_string())).collect::<Vec<_>>() }).map_err(|e| format!("{:?}", e))
+                })).unwrap_or_else(|_| Err("panic".to_string()))
+            };
+            let (a, b) = match (run(&with), run(&without)) { (Ok(a), Ok(b)) => (a, b), (x, y) => { if failures.len() < 20 { failures.push(format!("C14: analysis of {:?} fails: with plugins {:?}, without {:?}", t, x.err(), y.err())); } continue; } };
+            let ends_b: Vec<usize> = b.iter().map(|k| k.1).collect();
+            for k in a.iter() {
+                if !ends_b.contains(&k.1) { if failures.len() < 20 { failures.push(format!("C14: {:?}: boundary {} exists only with the plugins", t, k.1)); } break; }
+                let inner: Vec<&(usize, usize, u16, u32, String)> = b.iter().filter(|x| x.0 >= k.0 && x.1 <= k.1).collect();
+                if inner.len() == 1 {
+                    // not a merge: reported unchanged (a lone numeral may get its normalised form re-issued by the numeral plugin)
+                    let x = inner[0];
+                    let numeral = mergeable(&t[k.0..k.1]) && t[k.0..k.1].chars().any(|c| c.is_ascii_digit() || c == '万');
+                    if (x.2 != k.2 || x.3 != k.3 || (!numeral && x.4 != k.4)) && failures.len() < 20 { failures.push(format!("C14: {:?}: the token {}..{} is not part of a merge but is reported as {:?} instead of {:?}", t, k.0, k.1, k, x)); }
+                } else {
+                    for x in inner.iter() {
+                        if !mergeable(&t[x.0..x.1]) && failures.len() < 20 { failures.push(format!("C14: {:?}: the token {:?} ({}..{}) can not be part of a merge, but was swallowed by {:?}", t, &t[x.0..x.1], x.0, x.1, &t[k.0..k.1])); }
+                    }
+                }
+            }
+        }
+        println!("verif_oracle_plugins_only_merge: {} texts, {} failures", texts.len(), failures.len());
+        for f in failures.iter().take(5) { println!("FAILING INPUT: {}", f); }
+        assert!(failures.is_empty());
+    }
